@@ -1,5 +1,6 @@
 import MythVerif.Proofs.DagRecSpan
 import MythVerif.Proofs.DagRecCount
+import MythVerif.Proofs.DagRecStat
 /-!
 # C18 — DAG Recorder totals do not depend on how the DAG was contracted
 
@@ -88,6 +89,23 @@ theorem C18_node_count_bookkeeping (v : Variant) (o : Opts) (sc : Nat) (t : Tree
   simp only [recTree]
   exact summarize_isGroup v o _ _
 
+/-- **the edge totals of the `.stat` file do not depend on the contraction**: `totN d` is what
+    `gen_stat.c` adds up for a (contracted) DAG — the logical edge counts of the collapsed
+    sections / tasks plus the edges `dr_pi_dag_enum_edges` still emits explicitly for the
+    materialised ones (tree-level account of those edges).  Under every option setting it equals
+    the edge counts of the complete uncontracted sequence of intervals. -/
+theorem C18_stat_edges_policy_independent (o : Opts) (sc : Nat) (t : Tree) (h : wnTask t = true) :
+    totN (record .fixed o sc t) = flatEC (leavesTree t) := by
+  have hg := (recTree_good o t (rootCursor sc)).2.2 h
+  have := good_tot _ hg.1
+  rw [← (C18_counts_exact o sc t h).2]
+  unfold record
+  rw [this]
+  cases hd : (recTree .fixed (summarize .fixed o) t (rootCursor sc)).1 with
+  | ival i => rw [hd] at hg; simp [DNode.isGroup] at hg
+  | create i ch => rw [hd] at hg; simp [DNode.isGroup] at hg
+  | group i ds => rfl
+
 /-! ### non-vacuity and the refutations of the pinned behaviour -/
 
 def r (s e w : Nat) : Raw := { startT := s, endT := e, worker := w }
@@ -130,6 +148,18 @@ theorem C18_pinned_end_edge_outside_collapsed_section :
     (record .pinned { uncollapseMin := 1000 } 5 demoSection).info.c.ec.create = 1 ∧
     (record .pinned { uncollapseMin := 1000 } 5 demoSection).info.c.ec.end_ = 0 ∧
     (record .fixed { uncollapseMin := 1000 } 5 demoSection).info.c.ec.end_ = 1 := by decide
+
+/-- the root task around `demoSection`: with collapse_max_count = 4 the section (3 intervals) is
+    collapsed and the root task (4 intervals) is not -/
+def demoTask : Tree := .group .task (.cons demoSection (.cons (.ival .endTask (r 96 99 0)) .nil))
+
+/-- … so that the `.stat` edge totals depended on the contraction: the pinned code reported no
+    `end` edge at all for this DAG (the uncontracted DAG has one); the current code reports it -/
+theorem C18_pinned_stat_end_edges_depend_on_contraction :
+    (totN (record .pinned { collapseMaxCount := 4 } 5 demoTask)).end_ = 0 ∧
+    (totN (record .pinned {} 5 demoTask)).end_ = 1 ∧
+    (totN (record .fixed { collapseMaxCount := 4 } 5 demoTask)).end_ = 1 ∧
+    (record .fixed { collapseMaxCount := 4 } 5 demoTask).count = 3 := by decide
 
 /-- … and `dr_collapse_subgraph` left `min_node_count` of a collapsed multi-worker subgraph stale,
     above `cur_node_count` (`dr_check_min_node_count` fails with chk_level ≥ 1) -/
